@@ -72,10 +72,15 @@ void rec_del(void *p) {
 }  // namespace
 
 extern "C" {
+// Contents of fresh malloc memory are indeterminate: the driver picks a fill byte per case
+// (vf_malloc_fill, -1 = leave it to the allocator / ASan's 0xbe) so that code which reads such
+// memory before writing it sees different values in different cases instead of one lucky constant.
+int vf_malloc_fill = -1;
 void *__wrap_malloc(size_t n) {
     if (g_busy) return __real_malloc(n);
     if (inject()) return nullptr;
     void *p = __real_malloc(n);
+    if (p && vf_malloc_fill >= 0 && n <= (1u << 20)) memset(p, vf_malloc_fill, n);
     rec_add(p, n);
     return p;
 }
